@@ -23,6 +23,14 @@ import (
 //   C10 cross-key            an outcome produced by an execution of another key
 //   C10 outcome-not-resolved-value   an outcome that is not the (result, error) its execution resolved with
 //                            (so callers coalesced into one execution cannot differ: `coalesced-differ` is reported too)
+//   C10 unanswered-after-resolve   at a quiescent point where a work function had RESOLVED and its return was still held by
+//                            the harness, a blocking/async caller that was (as its eventual outcome shows) coalesced into
+//                            that very execution had not been answered yet. Callers receive the outcome of the execution
+//                            when it is resolved, not when the work function returns: the abstract model answers every
+//                            attached waiter at resolution (`complete` moves gwx* to gd*, and each PDrain is enabled without
+//                            waiting for PReturn); an implementation that wakes only some of them (Signal for Broadcast)
+//                            leaves the others waiting for the finisher's broadcast, i.e. for the return of a work function
+//                            that may itself be waiting (ExclusiveRateLimit, or a function that waits for its callers)
 //   C10 resolve-not-called   nil result without errResolveNotCalled, or errResolveNotCalled with no matching execution
 //                            that returned without resolving after the call was made
 //   C10 fn-supplier          the executed function was executed twice, started before the call that supplied it, or its
@@ -51,8 +59,10 @@ const (
 
 var exStyleName = [...]string{"call", "callafter", "callasync", "callafterasync", "start", "startafter", "optwork", "optworkstart"}
 
-func exIsStart(style int) bool { return style == exStart || style == exStartAfter || style == exOptWorkStart }
-func exIsWork(style int) bool  { return style == exOptWork || style == exOptWorkStart }
+func exIsStart(style int) bool {
+	return style == exStart || style == exStartAfter || style == exOptWorkStart
+}
+func exIsWork(style int) bool { return style == exOptWork || style == exOptWorkStart }
 
 // function behaviours
 const (
@@ -86,9 +96,9 @@ type exFn struct {
 	relResolve  bool // controller's view
 	relReturn   bool
 	// written under env.mu
-	execs                             int
+	execs                              int
 	startTick, resolveTick, returnTick int
-	seenStart                         bool
+	seenStart                          bool
 }
 
 func (f *exFn) result() int { return f.fid*10 + f.mode }
@@ -189,13 +199,16 @@ type exEnv struct {
 	id      string
 	phases  int
 	failed  bool
-	quiet   int // tick at which every call had finished and the key map was checked (before the fresh calls)
+	gapSeen map[[2]int]bool // (call, fn): call was unanswered at a quiescent point where fn had resolved, return held
+	gapFns  map[int]bool    // functions for which such a quiescent point was observed
+	quiet   int             // tick at which every call had finished and the key map was checked (before the fresh calls)
 }
 
 var exKeyPool = []interface{}{nil, "k1", 2}
 
 func newExEnv(h *hctx, id string, nkeys int) *exEnv {
-	return &exEnv{h: h, e: new(Exclusive), keys: exKeyPool[:nkeys], started: make(chan *exFn, 4096), id: id}
+	return &exEnv{h: h, e: new(Exclusive), keys: exKeyPool[:nkeys], started: make(chan *exFn, 4096), id: id,
+		gapSeen: map[[2]int]bool{}, gapFns: map[int]bool{}}
 }
 
 func (env *exEnv) monitor(prop, format string, args ...interface{}) {
@@ -548,6 +561,28 @@ func (env *exEnv) evaluate() {
 				}
 			}
 		}
+		for _, f := range execs {
+			if !env.gapFns[f.fid] {
+				continue
+			}
+			coalesced := 0
+			for _, c := range env.calls {
+				if c.key != key || exIsStart(c.style) || !c.got || c.res != f.result() {
+					continue
+				}
+				coalesced++
+				if env.gapSeen[[2]int{c.id, f.fid}] {
+					env.monitor("C10", "unanswered-after-resolve call=%d style=%s key=%d fn=%d (work resolved at %d, return still held; "+
+						"the call was answered by this execution only at %d)", c.id, exStyleName[c.style], key, f.fid, f.resolveTick, c.ret)
+				}
+			}
+			h.count("gapcheck_execs", 1)
+			if coalesced >= 3 {
+				h.count("gapcheck_execs_ge3_callers", 1)
+				env.phases |= exPhCoalesced3
+			}
+			h.count(fmt.Sprintf("gapcheck_callers_%d", coalesced), 1)
+		}
 		if len(execs) > issuedc+issueds {
 			env.monitor("C10", "execs-gt-calls key=%d execs=%d calls=%d", key, len(execs), issuedc+issueds)
 		}
@@ -563,6 +598,33 @@ func (env *exEnv) evaluate() {
 	h.line("F exclusive_case %s %d %d %d %d | 1", env.id, len(env.keys), len(env.calls), totalExecs, env.phases)
 }
 
+// quiesceCheck waits for quiescence; at a quiescent point every function that has resolved and is blocked on its return
+// gate has finished `resolve`, so every caller coalesced into its execution must already hold its outcome. Which
+// callers those are is only known from their eventual outcome, so the unanswered ones are remembered here and judged
+// in evaluate (a caller that was merely waiting for the NEXT execution is not a violation).
+func (env *exEnv) quiesceCheck() bool {
+	if !quiesce(150*time.Microsecond, 2*time.Second) {
+		env.h.count("quiesce_timeouts", 1)
+		return false
+	}
+	env.pollStarted()
+	env.mu.Lock()
+	defer env.mu.Unlock()
+	for _, f := range env.fns {
+		if f.startTick == 0 || f.resolveTick == 0 || f.returnTick != 0 || f.relReturn || !f.relResolve ||
+			(f.mode != exModeResolve && f.mode != exModeTwice) {
+			continue
+		}
+		env.gapFns[f.fid] = true
+		for _, c := range env.calls {
+			if c.key == f.key && !exIsStart(c.style) && !exDone(c) {
+				env.gapSeen[[2]int{c.id, f.fid}] = true
+			}
+		}
+	}
+	return true
+}
+
 // ---- phases, as seen by the controller ------------------------------------------------------------------------------
 
 const (
@@ -571,6 +633,7 @@ const (
 	exPhRunning
 	exPhGap
 	exPhBusy
+	exPhCoalesced3 // a resolve-to-return gap was observed at quiescence on an execution with >= 3 coalesced callers
 )
 
 func (env *exEnv) phaseOf(key int) (int, string) {
@@ -646,8 +709,7 @@ func (env *exEnv) probe() bool {
 		if !env.quietKey(key) {
 			continue
 		}
-		if !quiesce(150*time.Microsecond, 2*time.Second) {
-			env.h.count("quiesce_timeouts", 1)
+		if !env.quiesceCheck() {
 			return false
 		}
 		if hs = env.held(); len(hs) == 0 {
@@ -733,6 +795,56 @@ func init() {
 	register("C09S", func(h *hctx) { timedSweep(h, "c09", exSweepVariants()) })
 }
 
+// coalesceScript: 3-6 blocking/async callers coalesced into ONE execution whose function (supplied by the last attacher:
+// work style, gated) resolves while its return is held; the quiescent point in between is checked by quiesceCheck.
+// Variant 0: the callers queue up behind a running predecessor; variant 1: they arrive inside a CallAfter wait.
+func (env *exEnv) coalesceScript(rng *rand.Rand, key int) {
+	h := env.h
+	blocking := []int{exCall, exCallAsync, exOptWork, exCallAsync, exCall}
+	more := 1 + rng.Intn(4) // callers besides the first and the last
+	mode := exModeResolve
+	if rng.Intn(4) == 0 {
+		mode = exModeTwice
+	}
+	var last *exCallRec
+	if rng.Intn(2) == 0 {
+		p := env.issue(exOptWork, key, exModeResolve, false, true, 0, 0)
+		env.quiesceCheck()
+		for j := 0; j <= more; j++ {
+			st := blocking[rng.Intn(len(blocking))]
+			env.issue(st, key, exRandMode(rng, st), rng.Intn(4) == 0, false, 0, 0)
+			if rng.Intn(2) == 0 {
+				time.Sleep(time.Duration(50+rng.Intn(200)) * time.Microsecond)
+			}
+		}
+		last = env.issue(exOptWork, key, mode, rng.Intn(4) == 0, true, 0, 0)
+		env.quiesceCheck()
+		env.release(p.fn, true, true)
+		h.count("coalesce_script_behind_predecessor", 1)
+	} else {
+		first := exCallAfter
+		if rng.Intn(2) == 0 {
+			first = exCallAfterAsync
+		}
+		env.issue(first, key, exModeValue, false, false, time.Duration(5+rng.Intn(4))*time.Millisecond, 0)
+		for j := 0; j < more; j++ {
+			time.Sleep(time.Duration(100+rng.Intn(300)) * time.Microsecond)
+			st := blocking[rng.Intn(len(blocking))]
+			env.issue(st, key, exRandMode(rng, st), rng.Intn(4) == 0, false, 0, 0)
+		}
+		time.Sleep(time.Duration(100+rng.Intn(300)) * time.Microsecond)
+		last = env.issue(exOptWork, key, mode, rng.Intn(4) == 0, true, 0, 0)
+		h.count("coalesce_script_callafter_window", 1)
+	}
+	env.quiesceCheck() // the wait is over / the predecessor has finished: last.fn should be running now
+	env.release(last.fn, true, false)
+	env.quiesceCheck() // resolved, return held: every coalesced caller must be answered HERE
+	if rng.Intn(2) == 0 {
+		env.release(last.fn, true, true)
+		env.quiesceCheck()
+	}
+}
+
 // ---- K1: gated scripts ---------------------------------------------------------------------------------------------
 
 func exK1Case(h *hctx, i int) {
@@ -747,18 +859,20 @@ func exK1Case(h *hctx, i int) {
 	settle := func() {
 		switch r := rng.Intn(10); {
 		case r < 6:
-			if !quiesce(150*time.Microsecond, 2*time.Second) {
-				h.count("quiesce_timeouts", 1)
-			}
+			env.quiesceCheck()
 		case r < 9:
 			time.Sleep(time.Duration(100+rng.Intn(500)) * time.Microsecond)
 		}
 	}
-	forceProbe := nkeys >= 2 && rng.Intn(3) == 0
+	if rng.Intn(10) < 3 {
+		env.coalesceScript(rng, rng.Intn(nkeys))
+		nact = 2 + rng.Intn(6)
+	}
+	forceProbe := nkeys >= 2 && rng.Intn(3) == 0 && len(env.calls) == 0
 	nextKey := -1 // after releasing only the resolve gate, usually call into the resolve-to-return gap
 	for a := 0; a < nact; a++ {
 		if forceProbe && a == 1 {
-			quiesce(150*time.Microsecond, 2*time.Second)
+			env.quiesceCheck()
 			if env.probe() {
 				continue
 			}
@@ -893,10 +1007,16 @@ func exSweepVariants() []timedCase {
 		// A resolved but held; B arrives in the resolve-to-return gap; a Start arrives while B waits; A returns; a second
 		// Start arrives around the hand-over to B, whose function is held for a while
 		mk("gap", func(h *hctx, env *exEnv, inject time.Duration) {
+			// three callers coalesced into A's execution: two arrive inside the CallAfter wait of the first, A (the last
+			// attacher, so its function is the one executed) resolves and is held before returning
+			env.issue(exCallAfterAsync, 0, exModeValue, false, false, 2*time.Millisecond, 0)
+			gap(h)
+			env.issue(exCall, 0, exModeValue, false, false, 0, 0)
+			gap(h)
 			a := env.issue(exOptWork, 0, exModeResolve, false, true, 0, 0)
 			waitStart(env, a, 100*time.Millisecond+inject)
 			env.release(a.fn, true, false)
-			gap(h)
+			env.quiesceCheck() // resolved, return held: all three must have their outcome here
 			b := env.issue(exCall, 0, exModeValue, false, true, 0, 0)
 			gap(h)
 			env.issue(exStart, 0, exModeValue, false, false, 0, 0)
